@@ -2,6 +2,9 @@
 
 mod c12;
 mod c14;
+mod dbsim;
+mod lsm;
+mod shard;
 mod drv;
 mod par;
 mod prng;
@@ -30,13 +33,28 @@ fn main() {
     let rep = match comp.as_str() {
         "c12" => c12::run(&tier, seed, &drv, replay.as_deref(), &format!("{corpus}/C12")),
         "c14" => c14::run(&tier, seed, &drv, replay.as_deref(), &format!("{corpus}/C14")),
+        "lsm" => {
+            let prop = arg(&args, "--property").unwrap_or_else(|| "C01".into());
+            let sh = shard::parse_shard(&args);
+            if sh.is_some() || replay.is_some() || std::env::var("VERIF_NOSHARD").is_ok() {
+                lsm::run(&tier, seed, &prop, replay.as_deref(), &format!("{corpus}/lsm"), sh)
+            } else {
+                let mut rep = report::Report::new("lsm", lsm::rule());
+                let n = par::threads();
+                let pass: Vec<String> = vec!["--tier".into(), tier.clone(), "--seed".into(), seed.to_string(), "--property".into(), prop.clone(), "--corpus".into(), corpus.clone()];
+                let secs = if tier == "thorough" { 3000 } else { 420 };
+                shard::run_sharded(&mut rep, "lsm", &pass, n, std::time::Duration::from_secs(secs), "c09:operation-hangs");
+                rep.rule = lsm::rule().to_string();
+                rep
+            }
+        }
         other => {
             eprintln!("unknown component {other}");
             std::process::exit(2);
         }
     };
     let _ = panic::take_hook();
-    let js = rep.to_json();
+    let js = if args.iter().any(|a| a == "--shard") { rep.to_lines() } else { rep.to_json() };
     match out {
         Some(p) => std::fs::write(p, js).unwrap(),
         None => println!("{js}"),
